@@ -3,11 +3,20 @@ the proof quantifies over every chunk schedule, every partial-send pattern and e
 from pyvc.api import contract, P
 
 SK = "pycomm3.socket_.Socket"
+
+
+def _frame(rng):
+    """a well-formed encapsulation frame of a random body length (short, around the 256-byte receive size, long)"""
+    n = rng.choice([0, 0, 1, 4, 20, 255, 256, 257, 300, 600, rng.randint(0, 2000), rng.randint(0, 65535)])
+    body = bytes(rng.getrandbits(8) for _ in range(min(n, 64))) + bytes(max(n - 64, 0))
+    return bytes(rng.getrandbits(8) for _ in range(2)) + bytes([n & 0xFF, n >> 8]) + bytes(rng.getrandbits(8) for _ in range(20)) + body
+
+
 SETUP = ["s = object.__new__(pycomm3.socket_.Socket)", "peer = spec.env.PeerSocket(frame)", "s.sock = peer"]
 
 contract(
     id="socket.receive", func=SK + ".receive", call="s.receive()",
-    params={"frame": P.bytes(minlen=24, maxlen=24 + 65535)},
+    params={"frame": P.sampled(P.bytes(minlen=24, maxlen=24 + 65535), _frame)},      # the stand-in draws well-formed frames
     requires=["spec.env.wellformed_frame(frame)"],
     setup=SETUP, nondet=True,
     ensures=["result == frame", "peer.delivered == len(frame)"],
